@@ -3,7 +3,7 @@ SPEC = dict(
     prop="C14",
     proof_module="SimbodyProofs.C14",
     sources=["SimbodyModel/Proto.lean", "SimbodyModel/TreeDyn.lean", "SimbodyModel/TreeDynIO.lean", "SimbodyModel/C14.lean",
-             "SimbodyProofs/TreeDynAbs.lean", "SimbodyProofs/TreeDynRefine.lean",
+             "SimbodyProofs/TreeDynAbs.lean", "SimbodyProofs/TreeDynRefine.lean", "SimbodyProofs/TreeDynSim.lean", "SimbodyProofs/TreeDynSimAbi.lean", "SimbodyProofs/TreeDynSimFwd.lean", 
              "SimbodyProofs/C14.lean", "Drivers/C14.lean"],
     n=dict(quick=300, thorough=20000),
     rtol=1e-9, atol=1e-12,
@@ -11,7 +11,7 @@ SPEC = dict(
          "plus one massless intermediate body in some chains, Motion::Steady / Motion::Sinusoid prescribed mobilizers (1/6 of the "
          "eligible ones), one Rod / Ball / PointInPlane constraint in 1/3 of the cases, random applied mobility and body forces; "
          "one forced lone-particle configuration per 25 cases; distinct = distinct exported records",
-    partial="the theorems are stated about the abstract Matrix twin TreeDynAbs.MBT; the executed list/rose-tree recursions of SimbodyModel/TreeDyn.lean are tied to it by refinement lemmas per 6-D operation (TreeDynRefine) and by the simulation theorems listed in notes (TreeDynSim), not by a complete end-to-end equivalence: packing of the u-vector (slice/scatter), building the tree from the parent array and the Gauss-Jordan inverse are carried by the correspondence and the per-case wf check only; the prescribed-mobilizer branch (P+ = P, z += P H udot_p, tau) and constraint forces are part of the executable model "
+    partial="the property theorems are stated on the abstract Matrix twin TreeDynAbs.MBT; the executed rose-tree/list recursions of SimbodyModel/TreeDyn.lean are tied to it by NODE-LEVEL simulation theorems (TreeDynSim*.lean: for every executed subtree and incoming parent acceleration the value the executed pass stores at the node equals the twin quantity on the abstracted tree: multiplyByM, articulated body inertias P/P+/G incl. the explicit symmetrisation, multiplyByMInv, forward dynamics, inverse dynamics, J^T, reactions; free mobilizers only) plus refinement lemmas per 6-D operation. NOT proved: packing of the per-node blocks into the u-vector (slice/scatter, disjoint u0 ranges), construction of the tree from the flat parent array, that the Gauss-Jordan ginv inverts D (WF is a hypothesis of the ABI-dependent simulations, validated per case by O wf), hence no end-to-end array identity such as multiplyByM(multiplyByMInv f) = f for the executed functions; those links are carried by the correspondence; the prescribed-mobilizer branch (P+ = P, z += P H udot_p, tau) and constraint forces are part of the executable model "
             "and of the implementation-side predicates, but the abstract theorems cover free (non-prescribed) mobilizers; "
             "constraint forces enter the theorems as applied forces",
     assumptions=[
